@@ -3,6 +3,7 @@ package main
 import (
 	"fmt"
 	"go/types"
+	"strings"
 
 	"golang.org/x/tools/go/ssa"
 
@@ -142,6 +143,8 @@ func registerSumm(l *Lang, s *Summarizer, f *Form) error {
 }
 
 func runC11(p *Program, r *Report) {
+	engineConsistency(p, r, "C11.E", func(n string) bool { return strings.Contains(n, "safehtml.safeURLPattern") })
+
 	runURLGuardRules(p, r, "C11", true)
 }
 
